@@ -45,8 +45,8 @@ type desc struct {
 	OffY  int64      `json:"off_y"`
 	Model bool       `json:"model"` // also compare with the Coq model (small cases)
 	Gen   string     `json:"gen"`
-	Wide  bool       `json:"wide,omitempty"` // beyond the exact grid: admitted by the faithful-run filter (wide.go)
-	Dup   bool       `json:"dup,omitempty"`  // contains exactly repeated points: coverage / every-point-used not judged
+	Wide  bool       `json:"wide,omitempty"`  // beyond the exact grid: admitted by the faithful-run filter (wide.go)
+	Dup   bool       `json:"dup,omitempty"`   // contains exactly repeated points: coverage / every-point-used not judged
 	Spare int        `json:"spare,omitempty"` // the slice handed to BowyerWatson has cap = len + Spare (a window of a larger buffer)
 }
 
@@ -82,16 +82,16 @@ func bbox(ps []P) (x0, y0, x1, y1 int64) {
 }
 
 // exactOK: every float64 operation of the implementation is exact on this input.
-//   * coordinates (g+off) and the bounding-box sum min.X+max.X are integers below 2^52, and the
+//   - coordinates (g+off) and the bounding-box sum min.X+max.X are integers below 2^52, and the
 //     super-triangle coordinates are multiples of 1/2 below 2^52 => representable (the scaling by
 //     2^shift only changes exponents; |shift| <= 20 keeps everything far from over/underflow);
-//   * let u = 1 if min.X+max.X is even, else 1/2 (xMiddle is then a half integer) and D the largest
+//   - let u = 1 if min.X+max.X is even, else 1/2 (xMiddle is then a half integer) and D the largest
 //     coordinate difference, in units of u, between a vertex (input or super-triangle) and an input
 //     point: D <= (20.5*S)/u with S = max(w,h).  In the 4th-degree determinant
 //     |ax^2+ay^2| <= 2D^2, |bx*cy-cx*by| <= 2D^2, products <= 4D^4, partial sums <= 12D^4, all
 //     integers (in units of u^k): exact as soon as 12*D^4 < 2^53, i.e. D <= 5233.
 //     (S <= 127 always suffices; S <= 255 when min.X+max.X is even.)
-//   The bound is stated for the 20x super triangle of /repo HEAD.
+//     The bound is stated for the 20x super triangle of /repo HEAD.
 func exactOK(d desc) bool {
 	ps := gridPts(d)
 	x0, y0, x1, y1 := bbox(ps)
@@ -389,13 +389,13 @@ func genDesc(r *hx.Rng, n int, model bool) desc {
 
 // ---------------------------------------------------------------- running the implementation
 type outcome struct {
-	tris  [][3]int
-	pos   [][3]float64
-	sup   [][2]float64 // triangulation.SuperTriangle of the same input
-	alens []int        // length of every vertex attribute of the returned mesh (sorted by kind, name)
-	after [][2]float64 // the caller's slice pts[0:len] as it is AFTER the call
-	spareTouched bool  // the callee wrote into pts[len:cap] (recorded, not judged: plain Go append semantics)
-	crash string
+	tris         [][3]int
+	pos          [][3]float64
+	sup          [][2]float64 // triangulation.SuperTriangle of the same input
+	alens        []int        // length of every vertex attribute of the returned mesh (sorted by kind, name)
+	after        [][2]float64 // the caller's slice pts[0:len] as it is AFTER the call
+	spareTouched bool         // the callee wrote into pts[len:cap] (recorded, not judged: plain Go append semantics)
+	crash        string
 }
 
 func runImpl(d desc) (o outcome) {
@@ -666,7 +666,7 @@ func runCase(run *hx.Run, d desc, kind string) {
 	if gp && extent(uniq) <= 1000 {
 		gp = generalPosition(uniq)
 	} else if gp {
-		gp = len(uniq) <= 80 && generalPositionWide(uniq)
+		gp = len(uniq) <= 140 && generalPositionWide(uniq)
 	}
 	if !gp || !(exactOK(d) || (d.Wide && !d.Dup && wideOK(d))) {
 		run.Count("skipped:not-general-position-or-not-exact")
@@ -890,7 +890,7 @@ func main() {
 			d = genSliver(r)
 		case i%8 == 5: // wheels: a rim in convex position and hub points of very high degree
 			d = genWheel(r, 64)
-		case i%16 == 13: // exactly repeated points
+		case i%16 == 9: // exactly repeated points (9 is not taken by the i%8 streams above)
 			d = genDup(r)
 		case i%16 == 7: // checker only, larger
 			d = genDesc(r, r.Range(41, maxBig), false)
